@@ -149,7 +149,9 @@ struct TokSet { word: Option<usize>, extras: usize, toks: Vec<Tok> }
 
 /// extras shapes: 0 /\\s/ | 1 /[ \\n]/ | 2 / / | 3 / / and /\\n/ (two extras) | 4 /[ \\t]/
 const EXTRAS_SHAPES: usize = 5;
-const PUNCT: [u32; 6] = [0x2b, 0x2d, 0x28, 0x29, 0x3b, 0x2c];
+const PUNCT: [u32; 7] = [0x2b, 0x2d, 0x28, 0x29, 0x3b, 0x2c, 0x1f600];
+/// nine pairwise non-adjacent code points: a class over them has 9 ranges (large character set)
+const WIDE: [u32; 9] = [0x28, 0x2b, 0x2d, 0x30, 0x3b, 0x61, 0x63, 0xe9, 0x3bb];
 
 impl TokSet {
     fn ser(&self) -> String {
@@ -275,13 +277,15 @@ fn rand_set(rng: &mut Rng) -> TokSet {
     while toks.len() < n {
         let prec = match prec_mode { 0 => 0, 1 => if rng.chance(1, 4) { 1 } else { 0 }, _ => *rng.pick(&[-1, 0, 0, 1, 2]) };
         if rng.chance(2, 5) {
-            let v: Vec<u32> = (0..rng.range(1, 3)).map(|_| pick_sym(rng, &focus)).collect();
+            let mut v: Vec<u32> = (0..rng.range(1, 3)).map(|_| pick_sym(rng, &focus)).collect();
+            // tokens that contain an extras-like character (a blank inside, never at the ends)
+            if !with_word && v.len() >= 2 && rng.chance(1, 6) { v.insert(1, 0x20); }
             if lits.contains(&v) { continue; }
             lits.push(v.clone());
             toks.push(Tok { prec, is_string: true, re: Re::Lit(v) });
         } else {
             let re = match rng.below(4) { 0 => rand_re_with_reps(rng, &focus), 1 => rand_re(rng, 3, &focus), _ => rand_re(rng, 2, &focus) };
-            if re.nullable() { continue; }
+            if re.nullable() || toks.iter().any(|t| t.re.ser() == re.ser()) { continue; }
             if let Re::Lit(v) = &re { if lits.contains(v) { continue; } lits.push(v.clone()); }
             toks.push(Tok { prec, is_string: false, re });
         }
@@ -314,6 +318,22 @@ fn rand_set(rng: &mut Rng) -> TokSet {
             let at = rng.below(toks.len() + 1);
             let is_string = rng.chance(2, 3);
             toks.insert(at, Tok { prec: if prec_mode == 0 { 0 } else { *rng.pick(&[0, 0, 0, 1]) }, is_string, re: Re::Lit(v) });
+        }
+    }
+    // family: classes with >= 8 ranges, used by several tokens (rendered as large character sets)
+    if !with_word && rng.chance(1, 5) {
+        let wide = |neg: bool| Re::Cls(neg, WIDE.iter().map(|c| (*c, *c)).collect());
+        let shapes: Vec<Re> = vec![
+            Re::Plus(Box::new(wide(false))),
+            Re::Seq(Box::new(Re::Lit(vec![pick_sym(rng, &focus)])), Box::new(wide(false))),
+            Re::Seq(Box::new(wide(true)), Box::new(Re::Opt(Box::new(wide(false))))),
+            Re::Seq(Box::new(wide(false)), Box::new(Re::Lit(vec![pick_sym(rng, &focus)]))),
+        ];
+        for _ in 0..rng.range(2, 3) {
+            let re = rng.pick(&shapes).clone();
+            if toks.iter().any(|t| t.re.ser() == re.ser()) { continue; }
+            let at = rng.below(toks.len() + 1);
+            toks.insert(at, Tok { prec: if prec_mode == 0 { 0 } else { *rng.pick(&[0, 0, 1]) }, is_string: false, re });
         }
     }
     let extras = if rng.chance(1, 2) { 0 } else { rng.range(1, EXTRAS_SHAPES - 1) };
